@@ -378,14 +378,17 @@ static void op_vec(void)
   if (h_arg("x")) xb = h_unhex(h_arg("x"), &nx);
   if (h_arg("y")) yb = h_unhex(h_arg("y"), &ny);
 #define DONE do { free(xb); free(yb); return; } while (0)
+#define NLIM do { if (h_arg("n") && h_argi("n", 0) < n && h_argi("n", 0) >= 0) n = h_argi("n", 0); } while (0)   /* operate on a prefix of the buffer */
   if (T == 'D') {
     double *x = (double *) xb, *y = (double *) yb; n = nx / 8;
-    if (yb && ny / 8 != n) { h_out("bad-op"); DONE; }
+    if (yb && ny / 8 != n) { h_out("bad-op"); DONE; } NLIM;
     if      (!strcmp(op, "Sum"))      h_out("ok %s", DB(esl_vec_DSum(x, n)));
     else if (!strcmp(op, "Dot"))      h_out("ok %s", DB(esl_vec_DDot(x, y, n)));
     else if (!strcmp(op, "Max"))      h_out("ok %s", DB(esl_vec_DMax(x, n)));
     else if (!strcmp(op, "Min"))      h_out("ok %s", DB(esl_vec_DMin(x, n)));
     else if (!strcmp(op, "MatMax"))   { int M = (int) h_argi("m", 1); double **A = esl_mat_DCreate(M, (int)(n / M)); memcpy(A[0], x, 8*n); h_out("ok %s", DB(esl_mat_DMax(A, M, (int)(n / M)))); esl_mat_DDestroy(A); }
+    else if (!strcmp(op, "MatSet"))   { int M = (int) h_argi("m", 1); double **A = esl_mat_DCreate(M, (int)(n / M)); memcpy(A[0], x, 8*n); esl_mat_DSet(A, M, (int)(n / M), sd); out_dvec(A[0], n); esl_mat_DDestroy(A); }
+    else if (!strcmp(op, "MatCopy"))  { int M = (int) h_argi("m", 1); double **A = esl_mat_DCreate(M, (int)(n / M)), **B = esl_mat_DCreate(M, (int)(n / M)); memcpy(A[0], x, 8*n); esl_mat_DCopy(A, M, (int)(n / M), B); out_dvec(B[0], n); esl_mat_DDestroy(A); esl_mat_DDestroy(B); }
     else if (!strcmp(op, "MatScale")) { int M = (int) h_argi("m", 1); double **A = esl_mat_DCreate(M, (int)(n / M)); memcpy(A[0], x, 8*n); esl_mat_DScale(A, M, (int)(n / M), sd); out_dvec(A[0], n); esl_mat_DDestroy(A); }
     else if (!strcmp(op, "ArgMax"))   h_out("ok %" PRId64, esl_vec_DArgMax(x, n));
     else if (!strcmp(op, "ArgMin"))   h_out("ok %" PRId64, esl_vec_DArgMin(x, n));
@@ -419,12 +422,14 @@ static void op_vec(void)
     else h_out("bad-op");
   } else if (T == 'F') {
     float *x = (float *) xb, *y = (float *) yb; n = nx / 4;
-    if (yb && ny / 4 != n) { h_out("bad-op"); DONE; }
+    if (yb && ny / 4 != n) { h_out("bad-op"); DONE; } NLIM;
     if      (!strcmp(op, "Sum"))      h_out("ok %s", FB(esl_vec_FSum(x, n)));
     else if (!strcmp(op, "Dot"))      h_out("ok %s", FB(esl_vec_FDot(x, y, n)));
     else if (!strcmp(op, "Max"))      h_out("ok %s", FB(esl_vec_FMax(x, n)));
     else if (!strcmp(op, "Min"))      h_out("ok %s", FB(esl_vec_FMin(x, n)));
     else if (!strcmp(op, "MatMax"))   { int M = (int) h_argi("m", 1); float **A = esl_mat_FCreate(M, (int)(n / M)); memcpy(A[0], x, 4*n); h_out("ok %s", FB(esl_mat_FMax(A, M, (int)(n / M)))); esl_mat_FDestroy(A); }
+    else if (!strcmp(op, "MatSet"))   { int M = (int) h_argi("m", 1); float **A = esl_mat_FCreate(M, (int)(n / M)); memcpy(A[0], x, 4*n); esl_mat_FSet(A, M, (int)(n / M), sf); out_fvec(A[0], n); esl_mat_FDestroy(A); }
+    else if (!strcmp(op, "MatCopy"))  { int M = (int) h_argi("m", 1); float **A = esl_mat_FCreate(M, (int)(n / M)), **B = esl_mat_FCreate(M, (int)(n / M)); memcpy(A[0], x, 4*n); esl_mat_FCopy(A, M, (int)(n / M), B); out_fvec(B[0], n); esl_mat_FDestroy(A); esl_mat_FDestroy(B); }
     else if (!strcmp(op, "MatScale")) { int M = (int) h_argi("m", 1); float **A = esl_mat_FCreate(M, (int)(n / M)); memcpy(A[0], x, 4*n); esl_mat_FScale(A, M, (int)(n / M), sf); out_fvec(A[0], n); esl_mat_FDestroy(A); }
     else if (!strcmp(op, "ArgMax"))   h_out("ok %" PRId64, esl_vec_FArgMax(x, n));
     else if (!strcmp(op, "ArgMin"))   h_out("ok %" PRId64, esl_vec_FArgMin(x, n));
@@ -458,7 +463,7 @@ static void op_vec(void)
     else h_out("bad-op");
   } else if (T == 'I') {
     int *x = (int *) xb, *y = (int *) yb; n = nx / 4;
-    if (yb && ny / 4 != n) { h_out("bad-op"); DONE; }
+    if (yb && ny / 4 != n) { h_out("bad-op"); DONE; } NLIM;
     if      (!strcmp(op, "Sum"))      h_out("ok %d", esl_vec_ISum(x, n));
     else if (!strcmp(op, "Dot"))      h_out("ok %d", esl_vec_IDot(x, y, n));
     else if (!strcmp(op, "Max"))      h_out("ok %d", esl_vec_IMax(x, n));
@@ -477,11 +482,13 @@ static void op_vec(void)
     else if (!strcmp(op, "Increment")){ esl_vec_IIncrement(x, n, (int) h_argi("k", 1)); h_out("ok %s", h_hex(x, 4*n)); }
     else if (!strcmp(op, "Add"))      { esl_vec_IAdd(x, y, n); h_out("ok %s", h_hex(x, 4*n)); }
     else if (!strcmp(op, "AddScaled")){ esl_vec_IAddScaled(x, y, (int) h_argi("k", 1), n); h_out("ok %s", h_hex(x, 4*n)); }
+    else if (!strcmp(op, "MatSet"))   { int M = (int) h_argi("m", 1); int **A = esl_mat_ICreate(M, (int)(n / M)); memcpy(A[0], x, 4*n); esl_mat_ISet(A, M, (int)(n / M), (int) h_argi("k", 1)); h_out("ok %s", h_hex(A[0], 4*n)); esl_mat_IDestroy(A); }
+    else if (!strcmp(op, "MatCopy"))  { int M = (int) h_argi("m", 1); int **A = esl_mat_ICreate(M, (int)(n / M)), **B = esl_mat_ICreate(M, (int)(n / M)); memcpy(A[0], x, 4*n); esl_mat_ICopy(A, M, (int)(n / M), B); h_out("ok %s", h_hex(B[0], 4*n)); esl_mat_IDestroy(A); esl_mat_IDestroy(B); }
     else if (!strcmp(op, "MatScale")) { int M = (int) h_argi("m", 1); int **A = esl_mat_ICreate(M, (int)(n / M)); memcpy(A[0], x, 4*n); esl_mat_IScale(A, M, (int)(n / M), (int) h_argi("k", 1)); h_out("ok %s", h_hex(A[0], 4*n)); esl_mat_IDestroy(A); }
     else h_out("bad-op");
   } else if (T == 'L') {
     int64_t *x = (int64_t *) xb, *y = (int64_t *) yb; n = nx / 8;
-    if (yb && ny / 8 != n) { h_out("bad-op"); DONE; }
+    if (yb && ny / 8 != n) { h_out("bad-op"); DONE; } NLIM;
     if      (!strcmp(op, "Sum"))      h_out("ok %" PRId64, esl_vec_LSum(x, n));
     else if (!strcmp(op, "Dot"))      h_out("ok %" PRId64, esl_vec_LDot(x, y, n));
     else if (!strcmp(op, "Max"))      h_out("ok %" PRId64, esl_vec_LMax(x, n));
@@ -500,6 +507,18 @@ static void op_vec(void)
     else if (!strcmp(op, "Add"))      { esl_vec_LAdd(x, y, n); h_out("ok %s", h_hex(x, 8*n)); }
     else if (!strcmp(op, "AddScaled")){ esl_vec_LAddScaled(x, y, h_argi("k", 1), n); h_out("ok %s", h_hex(x, 8*n)); }
     else h_out("bad-op");
+  } else if (T == 'W' && !strcmp(op, "MatCopy")) {
+    int16_t *x = (int16_t *) xb, *r, **A, **B; int M = (int) h_argi("m", 1), N, i; n = nx / 2; N = (int)(n / M); r = malloc(2*n + 2);
+    A = malloc(sizeof *A * M); B = malloc(sizeof *B * M); for (i = 0; i < M; i++) { A[i] = x + (int64_t) i * N; B[i] = r + (int64_t) i * N; }
+    esl_mat_WCopy(A, M, N, B); h_out("ok %s", h_hex(r, 2*n)); free(r); free(A); free(B);
+  } else if (T == 'B' && !strcmp(op, "MatCopy")) {
+    int8_t *x = (int8_t *) xb, *r, **A, **B; int M = (int) h_argi("m", 1), N, i; n = nx; N = (int)(n / M); r = malloc(n + 1);
+    A = malloc(sizeof *A * M); B = malloc(sizeof *B * M); for (i = 0; i < M; i++) { A[i] = x + (int64_t) i * N; B[i] = r + (int64_t) i * N; }
+    esl_mat_BCopy(A, M, N, B); h_out("ok %s", h_hex(r, n)); free(r); free(A); free(B);
+  } else if (T == 'C' && !strcmp(op, "Reverse")) {
+    char *x = (char *) xb, *r; n = nx; NLIM; r = malloc(n + 1); esl_vec_CReverse(x, r, n); h_out("ok %s", h_hex(r, n)); free(r);
+  } else if (T == 'C' && !strcmp(op, "ReverseInPlace")) {
+    char *x = (char *) xb; n = nx; NLIM; esl_vec_CReverse(x, x, n); h_out("ok %s", h_hex(x, n));
   } else if (T == 'W' && !strcmp(op, "Copy")) {
     int16_t *x = (int16_t *) xb, *r; n = nx / 2; r = malloc(2*n + 2); esl_vec_WCopy(x, n, r); h_out("ok %s", h_hex(r, 2*n)); free(r);
   } else if (T == 'B' && !strcmp(op, "Copy")) {
